@@ -84,6 +84,24 @@ def kappa(qclass, d):
     raise KeyError(qclass)
 
 
+def moment_system(method, n, order, ratio):
+    """(cond_2, T, numerically_singular) of the moment system the rule for this configuration has to solve, from the
+    definitions alone (used by C01 to recognise configurations whose delivered rule cannot have its formal order)."""
+    if method == 'multicomplex':
+        return 1.0, 1, False
+    qclass, spacing = quotient_class(method, n, order)
+    mo = max((order // spacing) * spacing, spacing)
+    live = [d for d in range(1, n + mo) if kappa(qclass, d) != 0]
+    T = len(live)
+    r = (float(ratio) + 1.0) - 1.0
+    if T <= 1 or not r > 1:
+        return 1.0, T, False
+    M = np.array([[kappa(qclass, d) / math.factorial(d) * r ** (-i * d) for i in range(T)] for d in live])
+    sv = np.linalg.svd(M, compute_uv=False)
+    cond2 = float(sv[0] / sv[-1]) if sv[-1] > 0 else math.inf
+    return cond2, T, bool(cond2 >= 0.1 / (T * EPS))
+
+
 def setup(ctx, mon):
     import numdifftools  # noqa
 
